@@ -4,6 +4,7 @@
 #include "mem_spec.h"
 #include "mem_contracts.h"
 #include "common.h"
+#include "spec_touch.h"
 int verif_outcome;
 u64 ghost_g; u8 ghost_g_old;
 u32 ghost_mmio_reads, ghost_mmio_writes; u16 ghost_mmio_addr, ghost_mmio_wval, ghost_mmio_rval;
